@@ -400,7 +400,7 @@ func (c10) Run(u fw.Unit) fw.Result {
 func (c10) Describe(tier string) fw.Description {
 	return fw.Description{
 		Level: "model_checking",
-		Rule: "bounded-exhaustive: all arrival sequences of length 1..L over 8 timestamps (gaps below / equal to / 1 ms above the timeout, out-of-order arrivals) x timeout 2s|3s x MAXOUTOFORDERNESS 0|3s x key assignments over 1..2 keys, followed by a far sentinel of another key; each run under BOTH feed policies (lazy: all rows emitted before the expiry goroutine runs; eager: every goroutine runs to quiescence after each Emit) on the real engine with the virtual clock; oracle = exactly the stated constraints (each accepted row in exactly one session of its key, consecutive reported timestamps <= timeout apart, window_start = earliest, window_end = latest + timeout, delivered only once the watermark of the rows emitted so far >= end, eager == lazy for in-order input); a case = one input; non-trivial = >= 2 sessions delivered",
+		Rule: "bounded-exhaustive: all arrival sequences of length 1..L over 8 timestamps (gaps below / equal to / 1 ms above the timeout, out-of-order arrivals) x timeout 2s|3s x MAXOUTOFORDERNESS 0|3s x key assignments over 1..2 keys, followed by a far sentinel of another key (further configurations: a 36 h gap, present-day float64 timestamps, strategy block with a lagging consumer, a reduced alphabet with longer two-key sequences, the grouping key written as the nested path d.x; units: pairwise group-key identity and key-tuple collision searches); each run under BOTH feed policies (lazy: all rows emitted before the expiry goroutine runs; eager: every goroutine runs to quiescence after each Emit) on the real engine with the virtual clock; oracle = exactly the stated constraints (each accepted row in exactly one session of its key, consecutive reported timestamps <= timeout apart, window_start = earliest, window_end = latest + timeout, delivered only once the watermark of the rows emitted so far >= end, eager == lazy for in-order input); a case = one input; non-trivial = >= 2 sessions delivered",
 		Bounds:      map[string]any{"max_len": map[string]int{"quick": 4, "thorough": 6}, "timestamps_ms": c10Times},
 		Assumptions: []string{"ALLOWEDLATENESS = 0", "the schedule dimension is covered by the two extreme feed policies here and by C02's schedule exploration of the session window"},
 	}
